@@ -56,6 +56,11 @@ FOCUS = {
         "(an except/finally block, a reset or rollback that is skipped or runs too early, a future/lock/counter left in the wrong state after a failure, an exception class or error code mapped wrongly) so that the FIRST "
         "operation after some fault misbehaves while fault-free use is unchanged. Make change B a slip in a HELPER the property's mechanisms rely on but that is not itself named in the mechanism list (a conversion, "
         "length/offset computation, cache, lookup table, default value, comparison of ids/keys, ordering of a collection), preferably on a transport or clause the list above touches least. "),
+    8: ("__N__ changes have already been submitted for this property (listed above); do not repeat their sites or their triggers. This time: make change A a CONCURRENCY or ORDERING slip - two operations of the "
+        "public API overlapping on one object (a second caller arriving while the first is suspended at an await), a callback or listener that calls back into the API, an await moved across a state update, a lock "
+        "or flag released too early / taken too late, a task or timer not cancelled, work done in the wrong order after a refactor into helper coroutines - so that sequential use is unchanged and only an "
+        "interleaving misbehaves. Make change B a slip in how data CROSSES A BOUNDARY: caller-owned mutable arguments kept or modified (aliasing), values converted between representations (bytes/str/int, "
+        "case, endianness, signedness, units, seconds/milliseconds), limits and sizes taken from the wrong side (ours vs the peer's), defaults applied when a field is absent vs empty vs zero. "),
 }
 
 EXTRA = {
